@@ -266,4 +266,32 @@ prop("C13", fucs=["liquer.cache.MemoryCache.get", "liquer.cache.MemoryCache.cont
                   "liquer.cache.MemoryCache.store_metadata", "liquer.cache.MemoryCache.remove", "liquer.cache.MemoryCache.clean",
                   "liquer.cache.CacheCombine.get", "liquer.cache.CacheCombine.contains", "liquer.cache.CacheCombine.remove",
                   "liquer.cache.CacheCombine.store", "liquer.cache.NoCache.get", "liquer.cache.NoCache.store", "liquer.cache.NoCache.contains",
-                  "liquer.cache.CacheProxy.get", "liquer.cache.CacheProxy.remove"])
+                  "liquer.cache.CacheProxy.get", "liquer.cache.CacheProxy.remove", "liquer.cache.StoreCache.to_path"],
+     lemmas=["nested_paths_injective"])
+
+
+# ------------------------------------------------------------------ StoreCache: key -> store path
+classdef("liquer.cache.StoreCache", bases=["Cache"], fields=dict(storage=Ref("Store"), path=Str, flat=Bool))
+SC = Ref("StoreCache")
+
+
+@spec(params=dict(p=Str, key=Str, prefix=Str), returns=Str, macro=True)
+def nested_path(p, key, prefix):
+    """the store key under which the nested layout files a cache key"""
+    raw = p + "/" + key + "/" + prefix + ".data"
+    if raw.startswith("/"):
+        return raw[1:]
+    return raw
+
+
+@contract("liquer.cache.StoreCache.to_path", params=dict(self=SC, key=Str, prefix=Str), returns=Str,
+          opaque={"md5": Opaque("Any"), "update": NoneT, "hexdigest": Str})
+def _(self, key, prefix="0state_"):
+    ensures(implies(not self.flat, result == nested_path(self.path, key, prefix)), "nested-layout:path/key/prefix.data")
+
+
+@lemma(params=dict(p=Str, k1=Str, k2=Str, prefix=Str))
+def nested_paths_injective(p, k1, k2, prefix):
+    """different cache keys are filed under different store keys (nested layout)"""
+    requires(nested_path(p, k1, prefix) == nested_path(p, k2, prefix))
+    ensures(k1 == k2)
